@@ -228,7 +228,8 @@ class KeyValuePairNode(ContainerNode):
 
     def edits(self, node: TreeNode) -> Edit:
         if not isinstance(node, KeyValuePairNode):
-            raise RuntimeError("KeyValuePairNode.edits() should only ever be called with another KeyValuePair object!")
+            # a mapping compared with a plain multiset (e.g., a dict replaced by a set in a pickle or Python object)
+            return Replace(self, node)
         if self.allow_key_edits or self.key == node.key:
             return KeyValuePairEdit(self, node)
         else:
